@@ -153,3 +153,30 @@ def normalised(f):
     new._parent = getattr(f.node, '_parent', None)
     g = FuncInfo(f.module, new, f.cls, f.parent)
     return g
+
+
+def renamed(f, mapping):
+    """A view of function *f* with local names replaced according to *mapping* {actual name: role name}.  Rules that speak about the roles of
+    locals (`offset`, `payload_length`, …) discover the actual names by pattern and analyse the canonically named view, so that a renaming of
+    locals is invisible to them.  Names are only mapped when the role name is not in use for something else."""
+    if not mapping:
+        return f
+    import ast as _a
+    from sa.model import FuncInfo, clone, set_parents
+    used = {n.id for n in _a.walk(f.node) if isinstance(n, _a.Name)} | {a.arg for a in _a.walk(f.node) if isinstance(a, _a.arg)}
+    mapping = {k: v for k, v in mapping.items() if k != v and k in used and v not in used}
+    if not mapping:
+        return f
+    new = clone(f.node)
+    for n in _a.walk(new):
+        if isinstance(n, _a.Name) and n.id in mapping:
+            n.id = mapping[n.id]
+        elif isinstance(n, _a.arg) and n.arg in mapping:
+            n.arg = mapping[n.arg]
+    set_parents(new)
+    new._parent = getattr(f.node, '_parent', None)
+    g = FuncInfo(f.module, new, f.cls, f.parent)
+    for nf in list(f.nested.values()):
+        pass
+    f.module._nested(g, new) if False else None
+    return g
